@@ -207,18 +207,24 @@ func runCfg(n *node, f *frame, funcNode, callNode *node) {
 	defer func() {
 		f.mutex.Lock()
 		f.recovered = recover()
+		f.mutex.Unlock()
+		// The frame is not locked during deferred calls, as a deferred native
+		// function may call back a closure defined in this frame.
 		for _, val := range f.deferred {
 			// A deferred call which panics replaces the panic in flight, and
 			// the remaining deferred calls of the frame still run.
 			func() {
 				defer func() {
 					if r := recover(); r != nil {
+						f.mutex.Lock()
 						f.recovered = r
+						f.mutex.Unlock()
 					}
 				}()
 				val[0].Call(val[1:])
 			}()
 		}
+		f.mutex.Lock()
 		if f.recovered != nil {
 			oNode := originalExecNode(n, exec)
 			if oNode == nil {
